@@ -77,8 +77,15 @@ async fn run_async(ctx: &mut Ctx, enumerate: bool) {
         (base, specs)
     };
     let mut w: HWorld<X> = HWorld::new(9_000);
+    // explored runs: a fifth on an IPv6-only network
+    let v6 = !enumerate && ctx.tape.choose(5) == 0;
+    if v6 {
+        ctx.count("ipv6_runs");
+        w.attacker_addrs = vec!["[fd00:9::1]:30303".parse().unwrap(), "[fd00:9::2]:30304".parse().unwrap()];
+    }
     for i in 0..3 {
         let mut c = NodeCfg::new(8 + i);
+        c.v6 = v6;
         c.request_timeout_ms = 1000;
         c.request_retries = if enumerate { 1 } else { 1 + ctx.tape.choose(2) as u8 };
         // base 6: X's record advertises another port than it sends from (NATed / stale record), so
